@@ -3,7 +3,7 @@
 set -euo pipefail
 V=${VERIF_DIR:-/verif}
 LIBDIR=${IMB_LIBDIR:-$("$V/tools/build_cache.sh")}
-CACHE=$V/.cache
+CACHE=$V/.cache; mkdir -p "$CACHE"
 shash=$( (cd "$V" && cat sim/*.cc sim/*.h sim/*.S sim/*.inc ref/*.cc ref/*.h 2>/dev/null; sha256sum "$LIBDIR/intel-ipsec-mb.h") | sha256sum | cut -c1-16)
 OBJ=$CACHE/simobj-$shash
 BIN=$CACHE/bin-$(basename "$LIBDIR")-$shash
